@@ -235,11 +235,12 @@ class IASolverBaseClass:  # pylint: disable=R0902
             raise RuntimeError("Either 'F' or 'full_F' must be provided.")
 
         # The precoders are stored as 1D numpy arrays of 2D numpy arrays
-        # (a plain list would be broadcast as a 3D array when multiplied
-        # by the power)
+        # (a plain list, or a 3D numpy array of equally shaped precoders,
+        # would be broadcast as a 3D array when multiplied by the power)
         def to_array_of_arrays(
                 seq: Optional[Sequence[np.ndarray]]) -> Optional[np.ndarray]:
-            if seq is None or isinstance(seq, np.ndarray):
+            if seq is None or (isinstance(seq, np.ndarray)
+                               and seq.dtype == object and seq.ndim == 1):
                 return seq
             out = np.empty(len(seq), dtype=np.ndarray)
             for idx, matrix in enumerate(seq):
